@@ -154,6 +154,127 @@ fn all_pairs_section(rep: &mut Report, name: &str, left: &[Vec<u8>], right: &[Ve
     acc.into_report(rep, name);
 }
 
+
+/// A3 — closure.  For a fixed `a` the kernel is an automaton over the symbols of `b` whose whole state is the
+/// bit vector `v`: bit i of `v` is clear exactly when LCS(a[..i+1], b) = LCS(a[..i], b) + 1, and because carries
+/// and borrows only travel upwards, the low i bits of `v` are the state of the same kernel run on the prefix
+/// a[..i].  So the kernel's state after `b` is observable without a hook: it is the vector of the real
+/// `edit_distance(a[..i], b)` for i = 0..=|a|.  Layer-synchronous explicit-state search over ALL b in
+/// sigma^(<= max_len): state = that vector (at a depth), one representative `b` per state is kept and extended
+/// by every symbol; every transition recomputes the real distances of all prefixes from scratch and compares
+/// each with the reference DP row.  Two `b` with the same vector drive the kernel into the same `v`, so they
+/// have the same futures and one representative suffices.
+fn closure(a: &[u8], sigma: &[u8], max_len: usize, layer_cap: usize, acc: &mut Acc) {
+    use std::collections::HashSet;
+    let n = a.len();
+    let mut pas: Vec<BlockHashPositionArray> = vec![];
+    for i in 0..=n {
+        match pa_of(&a[..i]) {
+            Ok(p) => pas.push(p),
+            Err(e) => {
+                acc.violation(format!("init_from a={}", hex(&a[..i])), e, case(&a[..i], &[]));
+                return;
+            }
+        }
+    }
+    let mut layer: Vec<(Vec<u8>, Vec<u8>)> = vec![(vec![], vec![0u8; n + 1])];
+    let mut all_rows: HashSet<Vec<u8>> = HashSet::new();
+    let mut states = 1u64;
+    let mut capped = false;
+    for _depth in 1..=max_len {
+        let mut seen: HashSet<Vec<u8>> = HashSet::new();
+        let mut next: Vec<(Vec<u8>, Vec<u8>)> = vec![];
+        for (b, row) in &layer {
+            'sym: for &c in sigma {
+                let mut b2 = b.clone();
+                b2.push(c);
+                let mut new = vec![0u8; n + 1];
+                for j in 1..=n {
+                    new[j] = if a[j - 1] == c { row[j - 1] + 1 } else { row[j].max(new[j - 1]) };
+                }
+                acc.count("transitions", 1);
+                // the real kernel on every prefix of a (the last one is a itself)
+                for i in (0..=n).rev() {
+                    acc.evaluations += 1;
+                    acc.nontrivial += 1;
+                    let exp = (i + b2.len()) as u32 - 2 * new[i] as u32;
+                    match guarded(|| pas[i].edit_distance(&b2)) {
+                        Ok(d) if d == exp => {
+                            if i == n {
+                                acc.max("max_distance", d as u64);
+                            }
+                        }
+                        Ok(d) => {
+                            acc.violation(format!("closure a={} b={}", hex(&a[..i]), hex(&b2)), format!("edit_distance = {} but len(a)+len(b)-2*LCS = {}", d, exp), case(&a[..i], &b2));
+                            continue 'sym;
+                        }
+                        Err(e) => {
+                            acc.violation(format!("closure a={} b={}", hex(&a[..i]), hex(&b2)), e, case(&a[..i], &b2));
+                            continue 'sym;
+                        }
+                    }
+                }
+                if seen.insert(new.clone()) {
+                    all_rows.insert(new.clone());
+                    next.push((b2, new));
+                }
+            }
+        }
+        if next.len() > layer_cap {
+            capped = true;
+            next.truncate(layer_cap);
+        }
+        states += next.len() as u64;
+        acc.max("max_layer_width", next.len() as u64);
+        layer = next;
+        if layer.is_empty() {
+            break;
+        }
+    }
+    if std::env::var("MC_LOUD").is_ok() {
+        eprintln!("closure |a|={} a={}.. sigma={} states={} vectors={} capped={}", n, hex(&a[..n.min(8)]), hex(sigma), states, all_rows.len(), capped);
+    }
+    acc.count("states(kernel_vector,depth)", states);
+    acc.count("distinct_kernel_vectors", all_rows.len() as u64);
+    acc.count("closures_explored", 1);
+    if capped {
+        acc.count("closures_capped", 1);
+    }
+    if let Some((b, _)) = layer.last() {
+        acc.sample(json!({"closure_of_a": hex(a), "sigma": hex(sigma), "a_deepest_b": hex(b), "states": states}));
+    }
+}
+
+fn closure_subjects(thorough: bool) -> Vec<(Vec<u8>, Vec<u8>)> {
+    let rep = |pat: &[u8], len: usize| -> Vec<u8> { (0..len).map(|k| pat[k % pat.len()]).collect() };
+    let mut v: Vec<(Vec<u8>, Vec<u8>)> = vec![];
+    // (a, sigma): sigma = the symbols of a (or a few of them) plus, in most cases, one symbol that is not in a.
+    // Measured closure sizes (states = distinct kernel vectors per depth, summed over depths 0..=64) in comments.
+    v.push((vec![], vec![0, 63])); // 65
+    v.push((rep(&[0, 63], 7), vec![0, 63, 5])); // 1 230
+    v.push(((0..64u8).collect(), vec![0, 31, 63])); // 444
+    v.push(((0..64u8).rev().collect(), vec![0, 1, 63])); // 444
+    v.push((rep(&[0, 63], 63), vec![0, 63])); // 2 144
+    v.push((vec![9; 64], vec![9, 5])); // 2 145
+    v.push((rep(&[0, 7, 21, 42, 63], 64), vec![0, 7, 63])); // 22 906
+    v.push((rep(&[0, 63], 64), vec![0, 63, 5])); // 35 937
+    if thorough {
+        let mut lcg = Lcg(0xC08);
+        let mut bin = |len: usize| -> Vec<u8> { (0..len).map(|_| if lcg.next() & 1 == 0 { 0 } else { 63 }).collect() };
+        v.push((bin(24), vec![0, 63])); // 244 100
+        v.push((bin(24), vec![0, 63, 5])); // 981 071
+        v.push(((0..64).map(|k| if (k / 2) % 2 == 0 { 0 } else { 63 }).collect(), vec![0, 63])); // 106 742
+        v.push((rep(&[0, 63, 63], 63), vec![0, 63, 5])); // 279 113
+        v.push((rep(&[0, 0, 63], 64), vec![0, 63, 5])); // 278 687
+        v.push((rep(&[0, 7, 7, 63], 64), vec![0, 7, 63])); // 440 640
+        v.push((rep(&[0, 7, 63], 64), vec![0, 7, 63, 5])); // 367 356
+        v.push((rep(&[0, 7, 21, 63], 64), vec![0, 7, 21, 63])); // 527 969
+        v.push((rep(&[0, 0, 0, 63], 64), vec![0, 63, 5])); // 869 822
+        v.push(((0..64).map(|k| if (k / 3) % 2 == 0 { 0 } else { 63 }).collect(), vec![0, 63])); // 2 745 746
+    }
+    v
+}
+
 pub fn run(ctx: &Ctx) -> Report {
     let mut rep = Report::new("model_checking");
     let thorough = ctx.tier == Tier::Thorough;
@@ -220,10 +341,22 @@ pub fn run(ctx: &Ctx) -> Report {
     let bases: Vec<Vec<u8>> = vec![ramp.clone(), ramp[..63].to_vec(), ramp.iter().rev().copied().collect(), vec![9; 64], ramp[1..].to_vec()];
     all_pairs_section(&mut rep, "A2_ramp_vs_shifted_truncated_single_edits", &bases, &shifted, 13);
     all_pairs_section(&mut rep, "A2_shifted_truncated_vs_ramp(argument_order_swapped)", &shifted, &bases, 13);
+    // A3: closure of the kernel automaton for fixed a, all b over sigma up to the capacity
+    let subjects = closure_subjects(thorough);
+    let layer_cap = 400_000usize;
+    let acc = par_shards(subjects.len(), |i, acc| {
+        let (a, sigma) = &subjects[i];
+        closure(a, sigma, 64, layer_cap, acc);
+    });
+    let capped = acc.counters.get("closures_capped").copied().unwrap_or(0);
+    rep.set("states", acc.counters.get("states(kernel_vector,depth)").copied().unwrap_or(0));
+    rep.set("transitions", acc.counters.get("transitions").copied().unwrap_or(0));
+    acc.into_report(&mut rep, "A3_closure_of_the_kernel_automaton_all_b_up_to_64_symbols");
+    rep.set("closures_capped(layer wider than the cap: only the first cap states of that layer were extended)", capped);
     rep.set("exhaustive", true);
     rep.set(
         "rule",
-        "A1: ALL ordered pairs of strings over alphabets of size 2 / 3 / 4 up to the tier's length bound; A2: structured families at the real capacity: two-run strings X^iY^j (carry chains of every length through bit 63) against the same family with equal, swapped and different symbols, periodic strings (period <= 4) against rotations and prefixes, the ramp 0..63 against every substring, rotation and single-symbol edit at length 63 / 64, both argument orders; every pair compared with a textbook DP; a strided subset also through FuzzyHashCompareTarget::block_hash_1()/2(); the position array used for each left string is a re-used object (it held another string before; every third one was emptied with init_from(&[]) / clear() in between) and a fifth of them are compared with a fresh one.  Pairs are distinct within a section; non-trivial = both strings non-empty.",
+        "A3: for each of a list of fixed strings a (periodic, two-block, ramp, constant, pseudo-random binary) and a small alphabet sigma (symbols of a plus a foreign one), explicit-state search over ALL b in sigma^(<=64): state = (the kernel's state, observed without a hook as the vector of the real edit_distance(a[..i], b) over all prefixes of a, which determines the kernel's bit vector; depth), one representative b per state, every transition = the real edit_distance(a[..i], b+c) for every i recomputed from scratch and compared with the reference DP row; states and distinct kernel vectors are reported.  A1: ALL ordered pairs of strings over alphabets of size 2 / 3 / 4 up to the tier's length bound; A2: structured families at the real capacity: two-run strings X^iY^j (carry chains of every length through bit 63) against the same family with equal, swapped and different symbols, periodic strings (period <= 4) against rotations and prefixes, the ramp 0..63 against every substring, rotation and single-symbol edit at length 63 / 64, both argument orders; every pair compared with a textbook DP; a strided subset also through FuzzyHashCompareTarget::block_hash_1()/2(); the position array used for each left string is a re-used object (it held another string before; every third one was emptied with init_from(&[]) / clear() in between) and a fifth of them are compared with a fresh one.  Pairs are distinct within a section; non-trivial = both strings non-empty.",
     );
     rep.assume("beyond the enumerated families (alphabet > 4 with length > the bound, unstructured long strings) nothing is claimed");
     rep
